@@ -4,6 +4,7 @@ import (
 	"bytes"
 	"encoding/hex"
 	"fmt"
+	"io"
 	"math"
 	"strings"
 
@@ -34,7 +35,7 @@ const (
 func (c03) Plan(tier string) fw.Plan {
 	p := fw.Plan{
 		Batches: 16, Cases: 4112 + 600, TimeoutSec: 900, Level: "exploration", Exhaustive: false,
-		Rule: "part 1 (exhaustive sub-space): every byte string of length 0–2 (quick) / 0–3 (thorough) is decoded in strict mode into basicnode and into a harness-owned recording assembler, and in relaxed mode; part 2: for generated values, every single-bit flip, every truncation and 8 one-byte extensions of the canonical encoding (≤64 bytes; sampled beyond), random multi-point mutations, and structure-aware re-encodings with one rule broken (19 mutation kinds: longer heads, tags in front of each item kind incl. map keys, indefinite forms, f16/f32, NaN/Inf, simple values, duplicate keys near/far, swapped keys, out-of-range negatives, bad multibase prefix, damaged CID, junk after CID, tag 42 on text, non-string keys, count ±1, trailing item, double tag). Oracle: independent strict reference decoder; accept/reject and decoded value must agree. Distinct = distinct input strings (exhaustive part, by construction) + distinct base values (hash); non-trivial = reference decoder got past the first head.",
+		Rule:        "part 1 (exhaustive sub-space): every byte string of length 0–2 (quick) / 0–3 (thorough) is decoded in strict mode into basicnode and into a harness-owned recording assembler, and in relaxed mode; part 2: for generated values, every single-bit flip, every truncation and 8 one-byte extensions of the canonical encoding (≤64 bytes; sampled beyond), random multi-point mutations, and structure-aware re-encodings with one rule broken (19 mutation kinds: longer heads, tags in front of each item kind incl. map keys, indefinite forms, f16/f32, NaN/Inf, simple values, duplicate keys near/far, swapped keys, out-of-range negatives, bad multibase prefix, damaged CID, junk after CID, tag 42 on text, non-string keys, count ±1, trailing item, double tag). Oracle: independent strict reference decoder; accept/reject and decoded value must agree. Distinct = distinct input strings (exhaustive part, by construction) + distinct base values (hash); non-trivial = reference decoder got past the first head.",
 		Assumptions: []string{"CID syntax after the 0x00 prefix is delegated to go-cid (cid.Cast)", "UTF-8 validity of text strings is not part of the property", "resource limits (default allocation budget, depth 1024) are configuration; inputs stay far below them"},
 		MinEvents:   []string{"decodes_strict", "decodes_relaxed", "decodes_recorder", "ref_accept", "ref_reject", "exhaustive_inputs", "struct_mutations_hit"},
 	}
@@ -266,14 +267,19 @@ func c03Check(c *fw.Ctx, in []byte, cfg c03cfg, withRecorder bool) bool {
 		}
 	}
 	relaxed := cfg.ref.Relaxed
+	// The basicnode leg reads from a bytes.Reader; the recorder leg from a plain io.Reader that offers
+	// nothing but Read (no ByteReader, no Len), in one of three shapes chosen by the input itself: whole,
+	// one byte at a time, or with the last bytes delivered together with io.EOF. What a decoder accepts must
+	// not depend on how the bytes arrive.
+	var rd io.Reader = bytes.NewReader(in)
 	decode := func(na datamodel.NodeAssembler) error {
 		if cfg.name == "strict-nolinks" {
-			return cbor.Decode(na, bytes.NewReader(in))
+			return cbor.Decode(na, rd)
 		}
 		if cfg.name == "strict" {
-			return dagcbor.Decode(na, bytes.NewReader(in))
+			return dagcbor.Decode(na, rd)
 		}
-		return cfg.opt.Decode(na, bytes.NewReader(in))
+		return cfg.opt.Decode(na, rd)
 	}
 	judge := func(target string, err error, got func() (model.Val, string)) {
 		implOK := err == nil
@@ -319,6 +325,9 @@ func c03Check(c *fw.Ctx, in []byte, cfg c03cfg, withRecorder bool) bool {
 	}
 	if withRecorder {
 		rec, na := rasm.New()
+		shape := int(fw.HashString(string(in)) % 3)
+		rd = &c03PlainReader{data: in, shape: shape}
+		c.Count(fmt.Sprintf("reader_shape_%d", shape), 1)
 		if !c.Guard("C03:decode-recorder:"+cfg.name, func() { err = decode(na) }) {
 			c.Count("decodes_recorder", 1)
 			judge("recording assembler", err, func() (model.Val, string) { return rec.Root, "" })
@@ -332,4 +341,34 @@ func kindPair(got, want model.Val) string {
 		return got.K.String() + "-for-" + want.K.String()
 	}
 	return want.K.String()
+}
+
+// c03PlainReader offers only Read. shape 0: as much as asked; 1: one byte per call; 2: as much as asked,
+// and the final bytes come together with io.EOF.
+type c03PlainReader struct {
+	data  []byte
+	pos   int
+	shape int
+}
+
+func (r *c03PlainReader) Read(p []byte) (int, error) {
+	if len(p) == 0 {
+		return 0, nil
+	}
+	if r.pos >= len(r.data) {
+		return 0, io.EOF
+	}
+	n := len(p)
+	if r.shape == 1 {
+		n = 1
+	}
+	if n > len(r.data)-r.pos {
+		n = len(r.data) - r.pos
+	}
+	copy(p, r.data[r.pos:r.pos+n])
+	r.pos += n
+	if r.shape == 2 && r.pos >= len(r.data) {
+		return n, io.EOF
+	}
+	return n, nil
 }
